@@ -77,8 +77,8 @@ type Clause struct {
 
 type LoopSpec struct {
 	Assume []Clause // assumed at the loop head, never proved
-	Inv []Clause
-	Dec *SExpr
+	Inv    []Clause
+	Dec    *SExpr
 }
 
 type GhostAssign struct {
@@ -97,8 +97,9 @@ type Contract struct {
 	Requires []Clause
 	Ensures  []Clause
 	Callback map[string][]Clause // assumed postconditions of calls through a function-typed parameter
-	Assumed  []Clause // postconditions assumed at call sites but not checked on the body (listed as assumptions)
-	Modifies []string // component selectors; "*" = everything; empty = nothing
+	Assumed  []Clause            // postconditions assumed at call sites but not checked on the body (listed as assumptions)
+	Checks   []Clause            // trusted contracts: the clauses that ARE proved on the body (the `ensures` of a trusted contract stay assumed)
+	Modifies []string            // component selectors; "*" = everything; empty = nothing
 	ModAll   bool
 	Loops    map[int]*LoopSpec
 	GhostEx  []GhostAssign
@@ -112,10 +113,12 @@ type Contract struct {
 	Props    []string
 	Trusted  string // non-empty: contract is assumed, reason
 	ReplayIn []ReplayInput
-	Targets  []string // interface-method contracts: implementers to verify (others stay assumed)
+	Targets  []string            // interface-method contracts: implementers to verify (others stay assumed)
 	ReplayBd []*SExpr            // extra constraints used only to obtain small counterexamples for replay
 	Uses     []string            // lemmas / axioms assumed while verifying this function
 	Dispatch map[string][]string // interface type name -> allowed dynamic types (proved at each invoke)
+	Recovers bool                // the function must call the builtin recover() directly (it is meant to run deferred)
+	Defers   []string            // functions this function must defer unconditionally (in its entry block)
 }
 
 type ReplayInput struct {
@@ -136,6 +139,7 @@ type GhostField struct {
 	Type  string // struct type name
 	Field string
 	Sort  string // int | bool | ref | real | string | array<int,ref> ...
+	Log   bool   // `ghost log field`: a record of what was sent to the environment; exempt from frame conditions
 }
 
 type TypeInv struct {
@@ -388,6 +392,11 @@ func (db *SpecDB) loadText(path, text, pkgHint string) error {
 		case "ghost":
 			// ghost field Type.name sort
 			w2, r2 := splitWord(rest)
+			isLog := false
+			if w2 == "log" {
+				isLog = true
+				w2, r2 = splitWord(r2)
+			}
 			if w2 != "field" {
 				return fail(l.n, "expected `ghost field`")
 			}
@@ -396,7 +405,7 @@ func (db *SpecDB) loadText(path, text, pkgHint string) error {
 			if dot < 0 {
 				return fail(l.n, "ghost field needs Type.name")
 			}
-			db.Ghosts = append(db.Ghosts, &GhostField{Pkg: pkg, Type: w3[:dot], Field: w3[dot+1:], Sort: strings.TrimSpace(r3)})
+			db.Ghosts = append(db.Ghosts, &GhostField{Pkg: pkg, Type: w3[:dot], Field: w3[dot+1:], Sort: strings.TrimSpace(r3), Log: isLog})
 			cur = nil
 		case "typeinv":
 			// typeinv Type.field : A | B
@@ -435,7 +444,7 @@ func (db *SpecDB) loadText(path, text, pkgHint string) error {
 					}
 					db.Scan = append(db.Scan, fmt.Sprintf("nooverflow-assumed %s::%s: %s", cur.Pkg, cur.Name, cur.NoOvf))
 				}
-			case "requires", "ensures", "assumes", "ensures-local":
+			case "requires", "ensures", "assumes", "ensures-local", "checks":
 				e, err := parseSpecExpr(rest)
 				if err != nil {
 					return fail(l.n, "%v", err)
@@ -449,6 +458,8 @@ func (db *SpecDB) loadText(path, text, pkgHint string) error {
 				case "ensures-local":
 					cl.Local = true
 					cur.Ensures = append(cur.Ensures, cl)
+				case "checks":
+					cur.Checks = append(cur.Checks, cl)
 				default:
 					cur.Assumed = append(cur.Assumed, cl)
 					db.Scan = append(db.Scan, fmt.Sprintf("assumed postcondition %s::%s [%s]: %s", cur.Pkg, cur.Name, label, rest))
@@ -574,6 +585,15 @@ func (db *SpecDB) loadText(path, text, pkgHint string) error {
 					alts = append(alts, strings.TrimSpace(a))
 				}
 				cur.Dispatch[strings.TrimSpace(rest[:col])] = alts
+			case "recovers":
+				// structural obligation: recover() only stops a panic when called directly by the deferred function
+				cur.Recovers = true
+			case "defers":
+				for _, d := range strings.Split(rest, ",") {
+					if d = strings.TrimSpace(d); d != "" {
+						cur.Defers = append(cur.Defers, d)
+					}
+				}
 			case "props":
 				cur.Props = strings.Fields(strings.ReplaceAll(rest, ",", " "))
 			case "trusted":
@@ -778,9 +798,13 @@ func (p *sparser) expr() (*SExpr, error) {
 			return nil, err
 		}
 		// optional explicit triggers: forall x T :: {t1, t2} body
+		// several groups `{..} {..}` are alternative multi-patterns (separated by a `trigsep` marker)
 		var trig []*SExpr
-		if p.isOp("{") {
+		for p.isOp("{") {
 			p.p++
+			if len(trig) > 0 {
+				trig = append(trig, &SExpr{Op: "trigsep"})
+			}
 			for !p.isOp("}") {
 				t, err := p.or()
 				if err != nil {
@@ -929,6 +953,11 @@ func (p *sparser) postfix() (*SExpr, error) {
 			p.p++
 			var ty strings.Builder
 			d := 0
+			isCast := false
+			if p.isID("as") && !(p.toks[p.p+1].k == "op" && p.toks[p.p+1].v == ")") {
+				isCast = true
+				p.p++
+			}
 			for !(p.isOp(")") && d == 0) && p.peek().k != "eof" {
 				t := p.next()
 				if t.v == "(" {
@@ -941,9 +970,9 @@ func (p *sparser) postfix() (*SExpr, error) {
 			if err := p.expect(")"); err != nil {
 				return nil, err
 			}
-			if tn := ty.String(); strings.HasPrefix(tn, "as*") || strings.HasPrefix(tn, "as ") {
+			if tn := ty.String(); isCast {
 				// x.(as *T): the value seen as a *T (a cast, no test)
-				e = &SExpr{Op: "cast", Name: strings.TrimSpace(tn[2:]), Args: []*SExpr{e}}
+				e = &SExpr{Op: "cast", Name: strings.TrimSpace(tn), Args: []*SExpr{e}}
 			} else {
 				e = &SExpr{Op: "typeis", Name: tn, Args: []*SExpr{e}}
 			}
